@@ -388,8 +388,29 @@ static void op_ep_read_bin(int argc, char **argv) {
 
 #include "ops_ep2.inc"
 
+/* eplc <n> <P> <a> <b> : ep_mul_sim_lot on the n points P, 2P, …, nP with the scalars a, a + b, …, a + (n-1) b (compact form for lists
+   longer than a line can hold: the bucket method changes its window with the number of points) */
+static void op_eplc(int argc, char **argv) {
+	if (argc < 5) { fprintf(OUT, "bad-args\n"); return; }
+	int n = parse_int(argv[1]), caught = 0;
+	if (n < 1 || n > 80) { fprintf(OUT, "bad-args\n"); return; }
+	static ep_t ps[80]; static bn_t ks[80]; ep_t c0, base; bn_t a, b; raw_t r;
+	ep_null(c0); ep_new(c0); ep_null(base); ep_new(base); bn_null(a); bn_new(a); bn_null(b); bn_new(b);
+	ep_tok(base, argv[2]); raw_parse(&r, argv[3]); raw_to_bn(a, &r); raw_parse(&r, argv[4]); raw_to_bn(b, &r);
+	RLC_TRY {
+		for (int i = 0; i < n; i++) {
+			ep_null(ps[i]); ep_new(ps[i]); bn_null(ks[i]); bn_new(ks[i]);
+			if (i == 0) ep_norm(ps[0], base); else { ep_add(ps[i], ps[i - 1], ps[0]); ep_norm(ps[i], ps[i]); }
+			if (i == 0) bn_copy(ks[0], a); else bn_add(ks[i], ks[i - 1], b);
+		}
+		ep_mul_sim_lot(c0, ps, (const bn_t *)ks, n);
+	} RLC_CATCH_ANY { caught = 1; }
+	if (take_err() || caught) fprintf(OUT, "err"); else ep_out(c0);
+	fputc('\n', OUT);
+}
+
 const op_t ops_ep[] = {
-	{"ep_param", op_ep_param}, {"core_reinit", op_core_reinit}, {"ep_sel", op_ep_sel}, {"ep2", op_ep2}, {"ep1", op_ep1}, {"epm", op_epm}, {"eptab", op_eptab}, {"epfixt", op_epfixt}, {"eps", op_eps}, {"ep_glv", op_ep_glv}, {"epl", op_epl}, {"epd", op_epl}, {"epla", op_epl}, {"epda", op_epl},
+	{"ep_param", op_ep_param}, {"core_reinit", op_core_reinit}, {"ep_sel", op_ep_sel}, {"ep2", op_ep2}, {"ep1", op_ep1}, {"epm", op_epm}, {"eptab", op_eptab}, {"epfixt", op_epfixt}, {"eps", op_eps}, {"ep_glv", op_ep_glv}, {"epl", op_epl}, {"epd", op_epl}, {"epla", op_epl}, {"epda", op_epl}, {"eplc", op_eplc},
 	{"ep_write_bin", op_ep_write_bin}, {"ep_read_bin", op_ep_read_bin},
 	EP2_OPS
 	{NULL, NULL}
